@@ -2725,6 +2725,305 @@ example : BlkOK (X := Fin 2) (K := ℚ) 5 2 (Op.blockdiag 5 [Op.idEntry 0, Op.le
     exact ⟨h1.symm, rfl, by simp [EInv, Inv]⟩
   · simp [sg]; norm_num
 
+/-! ### Part 11 — operators between different domains (per-domain identities) -/
+
+/-- the domain on which mode `s` of `o` acts (`LinearOperator._dom(mode)`): TIMES and ADJOINT_INVERSE_TIMES act on `.domain` -/
+def inD (o : Op K (X → K)) (s : Nat) : Nat := if s = 0 ∨ s = 3 then dom o else tgt o
+/-- the domain mode `s` maps into (`_tgt(mode)`) -/
+def outD (o : Op K (X → K)) (s : Nat) : Nat := if s = 0 ∨ s = 3 then tgt o else dom o
+
+/-- typed well-formedness: what the constructors check with `check_object_identity` (consecutive chain members fit, summands
+    share domain and target, sandwiches / InversionEnablers are endomorphic), leaves are declared as in the typing table `ty` -/
+def WT (ty : Nat → Nat × Nat) : Op K (X → K) → Bool
+  | .leaf id _ d t => ty id == (d, t)
+  | .scaling _ _ _ => true
+  | .diag _ _ t _ => decide (t < 4)
+  | .idEntry _ => true
+  | .blockdiag _ _ => false
+  | .null _ _ => true
+  | .adapter o t => decide (t < 4) && WT ty o
+  | .chain ops => !ops.isEmpty && (ops.map (WT ty)).all id &&
+      (ops.zip (ops.drop 1)).all (fun p => tgt p.2 == dom p.1)
+  | .sum ops neg => !ops.isEmpty && !neg.isEmpty && (ops.map (WT ty)).all id &&
+      ops.all (fun o => domTgt o == domTgt (ops.headD (Op.null 0 0)))
+  | .sandwich _ _ op => WT ty op && dom op == tgt op
+  | .invEnabler o => WT ty o && dom o == tgt o
+
+/-- a product of labelled matrices, each intertwining the projectors of its input and output label, consecutive labels fitting -/
+theorem list_intertwine (P : Nat → Matrix X X K) :
+    ∀ (l : List (Matrix X X K × Nat × Nat)), l ≠ [] →
+      (∀ q ∈ l, P q.2.2 * q.1 = q.1 * P q.2.1) →
+      (∀ q ∈ l.zip (l.drop 1), q.2.2.2 = q.1.2.1) →
+      P ((l.head?.getD (0, 0, 0)).2.2) * (l.map (·.1)).prod = (l.map (·.1)).prod * P ((l.getLast?.getD (0, 0, 0)).2.1)
+  | [], h, _, _ => (h rfl).elim
+  | [q], _, h1, _ => by simpa using h1 q (by simp)
+  | q :: r :: rest, _, h1, h2 => by
+    have ih := list_intertwine P (r :: rest) (by simp) (fun x hx => h1 x (by simp [hx]))
+      (fun x hx => h2 x (by
+        simp only [List.drop_one, List.tail_cons] at hx ⊢
+        simp only [List.zip_cons_cons, List.mem_cons]
+        exact Or.inr hx))
+    have hq := h1 q (by simp)
+    have hfit : r.2.2 = q.2.1 := h2 (q, r) (by simp)
+    simp only [List.map_cons, List.prod_cons, List.head?_cons, Option.getD_some] at ih ⊢
+    rw [← mul_assoc, hq, mul_assoc, ← hfit, ih, ← mul_assoc]
+    simp [List.getLast?_cons_cons]
+
+/-- the mirrored statement for the reversed product `xₙ₋₁ ⋯ x₀` (adjoint-like modes of a chain) -/
+theorem list_intertwine_rev (P : Nat → Matrix X X K) :
+    ∀ (l : List (Matrix X X K × Nat × Nat)), l ≠ [] →
+      (∀ q ∈ l, P q.2.2 * q.1 = q.1 * P q.2.1) →
+      (∀ q ∈ l.zip (l.drop 1), q.2.2.1 = q.1.2.2) →
+      P ((l.getLast?.getD (0, 0, 0)).2.2) * (l.map (·.1)).reverse.prod =
+        (l.map (·.1)).reverse.prod * P ((l.head?.getD (0, 0, 0)).2.1)
+  | [], h, _, _ => (h rfl).elim
+  | [q], _, h1, _ => by simpa using h1 q (by simp)
+  | q :: r :: rest, _, h1, h2 => by
+    have ih := list_intertwine_rev P (r :: rest) (by simp) (fun x hx => h1 x (by simp [hx]))
+      (fun x hx => h2 x (by
+        simp only [List.drop_one, List.tail_cons] at hx ⊢
+        simp only [List.zip_cons_cons, List.mem_cons]
+        exact Or.inr hx))
+    have hq := h1 q (by simp)
+    have hfit : r.2.1 = q.2.2 := h2 (q, r) (by simp)
+    simp only [List.map_cons, List.reverse_cons, List.prod_append, List.prod_cons, List.prod_nil, mul_one,
+      List.head?_cons, Option.getD_some, List.append_assoc] at ih ⊢
+    rw [List.getLast?_cons_cons]
+    generalize (List.map (fun x => x.1) rest).reverse.prod = R at ih ⊢
+    generalize P ((r :: rest).getLast?.getD (0, 0, 0)).2.2 = L at ih ⊢
+    calc L * (R * (r.1 * q.1)) = L * (R * r.1) * q.1 := by simp only [mul_assoc]
+      _ = R * r.1 * (P q.2.2 * q.1) := by rw [ih, hfit]; simp only [mul_assoc]
+      _ = R * (r.1 * q.1) * P q.2.1 := by rw [hq]; simp only [mul_assoc]
+
+theorem signedSum_intertwine (A B : Matrix X X K) (l : List (Matrix X X K × Bool)) (h : ∀ q ∈ l, A * q.1 = q.1 * B) :
+    A * signedSum l = signedSum l * B := by
+  induction l with
+  | nil => simp [signedSum]
+  | cons q r ih =>
+    have hq := h q (by simp)
+    have := ih (fun x hx => h x (by simp [hx]))
+    simp only [signedSum, List.map_cons, List.sum_cons] at this ⊢
+    rw [mul_add, add_mul, this]
+    split <;> simp [hq]
+
+theorem inv_intertwine (A M : Matrix X X K) (h : A * M = M * A) : A * M⁻¹ = M⁻¹ * A := by
+  by_cases hu : IsUnit M.det
+  · have h1 : M⁻¹ * M = 1 := Matrix.nonsing_inv_mul M hu
+    have h2 : M * M⁻¹ = 1 := Matrix.mul_nonsing_inv M hu
+    calc A * M⁻¹ = M⁻¹ * M * (A * M⁻¹) := by rw [h1, one_mul]
+      _ = M⁻¹ * (M * A) * M⁻¹ := by simp only [mul_assoc]
+      _ = M⁻¹ * (A * M) * M⁻¹ := by rw [h]
+      _ = M⁻¹ * A * (M * M⁻¹) := by simp only [mul_assoc]
+      _ = M⁻¹ * A := by rw [h2, mul_one]
+  · rw [Matrix.nonsing_inv_apply_not_isUnit M hu]; simp
+
+/-- projectors of the domains and the declared leaves fit together -/
+structure Typing (P : Nat → Matrix X X K) (ty : Nat → Nat × Nat) : Prop where
+  diag : ∀ d, ∃ p : X → K, P d = Matrix.diagonal p
+  leaf : ∀ id s, s < 4 → P (if s = 0 ∨ s = 3 then (ty id).2 else (ty id).1) * leaf id (1 <<< s) =
+    leaf id (1 <<< s) * P (if s = 0 ∨ s = 3 then (ty id).1 else (ty id).2)
+
+theorem adapter_io (o : Op K (X → K)) (t s : Nat) (ht : t < 4) (hs : s < 4) :
+    inD (Op.adapter o t) s = inD o (s ^^^ t) ∧ outD (Op.adapter o t) s = outD o (s ^^^ t) := by
+  rcases h : domTgt o with ⟨d0, t0⟩
+  simp only [inD, outD, dom, tgt, domTgt, h]
+  interval_cases t <;> interval_cases s <;> simp [adapterDomMode, adapterTgtMode, domMask, tgtMask]
+
+theorem chain_io (ops : List (Op K (X → K))) (s : Nat) :
+    inD (Op.chain ops) s = (if s = 0 ∨ s = 3 then (ops.getLast?.map dom).getD 0 else (ops.head?.map tgt).getD 0) ∧
+    outD (Op.chain ops) s = (if s = 0 ∨ s = 3 then (ops.head?.map tgt).getD 0 else (ops.getLast?.map dom).getD 0) := by
+  simp only [inD, outD, dom, tgt, domTgt, List.getLast?_map, List.head?_map]
+  constructor <;> split <;> (cases ops.getLast? <;> cases ops.head? <;> rfl)
+
+/-- **operators between different domains.**  Let `P d` be the (diagonal) projector of domain `d` inside one big index type and let
+    every declared leaf intertwine the projectors of its domain and target in each mode.  Then every well-typed operator does:
+    `P (out) · den o = den o · P (in)` in every mode — so `P(out) · den o · P(in)` is a well-defined rectangular matrix from the
+    mode's input domain to its output domain, the identity of domain `d` is `P d` (not the global `1`), and (`typed_mul`,
+    `typed_add`) this compression is multiplicative / additive on composable operators: all single-algebra theorems transfer. -/
+theorem den_typed (P : Nat → Matrix X X K) (ty : Nat → Nat × Nat) (hT : Typing leaf P ty) (o : Op K (X → K))
+    (h : WT ty o = true) (s : Nat) (hs : s < 4) :
+    P (outD o s) * den S o (1 <<< s) = den S o (1 <<< s) * P (inD o s) := by
+  induction o using cap.induct generalizing s with
+  | case1 id c d t =>
+    have hty : ty id = (d, t) := by simpa [WT] using h
+    have := hT.leaf id s hs
+    rw [hty] at this
+    simpa [outD, inD, dom, tgt, domTgt, den, msem] using this
+  | case2 d c dt =>
+    rw [den_scaling isReal re blocks leaf d c dt s hs]
+    simp [outD, inD, dom, tgt, domTgt]
+  | case3 dm d t dt =>
+    have ht : t < 4 := by simpa [WT] using h
+    obtain ⟨p, hp⟩ := hT.diag dm
+    rw [den_diag isReal re blocks leaf dm d t dt s ht hs]
+    simp only [outD, inD, dom, tgt, domTgt, ite_self, hp, Matrix.diagonal_mul_diagonal]
+    congr 1; funext x; exact mul_comm _ _
+  | case4 d => simp [den_idEntry, outD, inD, dom, tgt, domTgt]
+  | case5 dm ents ih => simp [WT] at h
+  | case6 d t => simp [den_null]
+  | case7 o t ih =>
+    simp only [WT, Bool.and_eq_true, decide_eq_true_eq] at h
+    obtain ⟨hi, ho⟩ := adapter_io o t s h.1 hs
+    rw [den_adapter isReal re blocks leaf o t s h.1 hs, hi, ho]
+    exact ih h.2 _ (xor_lt4 s hs t h.1)
+  | case8 ops ih =>
+    simp only [WT, Bool.and_eq_true, Bool.not_eq_true', List.isEmpty_eq_false_iff, List.all_map, List.all_eq_true,
+      Function.comp, id, beq_iff_eq] at h
+    obtain ⟨⟨hne, hwt⟩, hfit⟩ := h
+    obtain ⟨hi, ho⟩ := chain_io ops s
+    rw [den_chain_mprod isReal re blocks leaf ops s hs hne, hi, ho]
+    have hall : ∀ q ∈ ops.map (fun o => (den S o (1 <<< s), inD o s, outD o s)), P q.2.2 * q.1 = q.1 * P q.2.1 := by
+      intro q hq
+      simp only [List.mem_map] at hq
+      obtain ⟨o, ho, rfl⟩ := hq
+      exact ih o ho (hwt o ho) s hs
+    have hmap : (ops.map (fun o => (den S o (1 <<< s), inD o s, outD o s))).map (·.1) = ops.map (den S · (1 <<< s)) := by
+      simp [List.map_map, Function.comp]
+    have hzip : ∀ q ∈ (ops.map (fun o => (den S o (1 <<< s), inD o s, outD o s))).zip
+        ((ops.map (fun o => (den S o (1 <<< s), inD o s, outD o s))).drop 1),
+        ∃ a b, (a, b) ∈ ops.zip (ops.drop 1) ∧ q = ((den S a (1 <<< s), inD a s, outD a s), (den S b (1 <<< s), inD b s, outD b s)) := by
+      intro q hq
+      rw [← List.map_drop, List.zip_map, List.mem_map] at hq
+      obtain ⟨⟨a, b⟩, hab, rfl⟩ := hq
+      exact ⟨a, b, hab, rfl⟩
+    by_cases hr : s = 0 ∨ s = 3
+    · have hrev : revOf s = false := by rcases hr with rfl | rfl <;> decide
+      simp only [hr, if_true, hrev, mprod, Bool.false_eq_true, if_false]
+      have := list_intertwine P _ (by simpa using hne) hall (by
+        intro q hq
+        obtain ⟨a, b, hab, rfl⟩ := hzip q hq
+        simp only [inD, outD, hr, if_true]
+        exact hfit (a, b) hab)
+      rw [hmap] at this
+      cases hh : ops.head? with
+      | none => exact (hne (List.head?_eq_none_iff.mp hh)).elim
+      | some x0 =>
+        cases hl : ops.getLast? with
+        | none => exact (hne (List.getLast?_eq_none_iff.mp hl)).elim
+        | some xl => simpa [List.head?_map, List.getLast?_map, outD, inD, hr, hh, hl] using this
+    · have hrev : revOf s = true := by
+        have : s = 1 ∨ s = 2 := by omega
+        rcases this with rfl | rfl <;> decide
+      simp only [hr, if_false, hrev, mprod, if_true]
+      have := list_intertwine_rev P _ (by simpa using hne) hall (by
+        intro q hq
+        obtain ⟨a, b, hab, rfl⟩ := hzip q hq
+        simp only [inD, outD, hr, if_false]
+        exact hfit (a, b) hab)
+      rw [hmap] at this
+      cases hh : ops.head? with
+      | none => exact (hne (List.head?_eq_none_iff.mp hh)).elim
+      | some x0 =>
+        cases hl : ops.getLast? with
+        | none => exact (hne (List.getLast?_eq_none_iff.mp hl)).elim
+        | some xl => simpa [List.head?_map, List.getLast?_map, outD, inD, hr, hh, hl] using this
+  | case9 ops neg ih =>
+    simp only [WT, Bool.and_eq_true, Bool.not_eq_true', List.isEmpty_eq_false_iff, List.all_map, List.all_eq_true,
+      Function.comp, id, beq_iff_eq] at h
+    obtain ⟨⟨⟨hne, hneg⟩, hwt⟩, hsame⟩ := h
+    rw [den_sum isReal re blocks leaf ops neg (1 <<< s) hne hneg]
+    apply signedSum_intertwine
+    intro q hq
+    have hq1 := (List.of_mem_zip hq).1
+    simp only [List.mem_map] at hq1
+    obtain ⟨o, ho, hoq⟩ := hq1
+    have hdt : domTgt (Op.sum ops neg) = domTgt o := by
+      cases ops with
+      | nil => exact (hne rfl).elim
+      | cons a l =>
+        have := hsame o ho
+        simp only [List.headD_cons] at this
+        simp only [domTgt, List.map_cons, List.head?_cons, this]
+    have hio : outD (Op.sum ops neg) s = outD o s ∧ inD (Op.sum ops neg) s = inD o s := by
+      simp [outD, inD, dom, tgt, hdt]
+    rw [← hoq, hio.1, hio.2]
+    exact ih o ho (hwt o ho) s hs
+  | case10 b c op ih =>
+    simp only [WT, Bool.and_eq_true, beq_iff_eq] at h
+    have hio : outD (Op.sandwich b c op) s = outD op s ∧ inD (Op.sandwich b c op) s = inD op s := by
+      have h2 := h.2
+      simp only [dom, tgt] at h2
+      simp [outD, inD, dom, tgt, domTgt, ← h2]
+    rw [den_sandwich, hio.1, hio.2]
+    exact ih h.1 s hs
+  | case11 o ih =>
+    simp only [WT, Bool.and_eq_true, beq_iff_eq] at h
+    have h2 := h.2
+    simp only [dom, tgt] at h2
+    have hio : ∀ u, outD (Op.invEnabler o) s = outD o u ∧ inD (Op.invEnabler o) s = inD o u ∧ outD o u = inD o u := by
+      intro u
+      simp [outD, inD, dom, tgt, domTgt, ← h2]
+    rw [den]
+    split
+    · rw [(hio s).1, (hio s).2.1]; exact ih h.1 s hs
+    · have h1 : ∀ s, s < 4 → invEnablerInvMode (1 <<< s) = 1 <<< (s ^^^ 2) := by decide
+      have hx : s ^^^ 2 < 4 := xor_lt4 s hs 2 (by decide)
+      have := ih h.1 (s ^^^ 2) hx
+      rw [(hio (s ^^^ 2)).1, (hio (s ^^^ 2)).2.1, h1 s hs, (hio (s ^^^ 2)).2.2]
+      rw [(hio (s ^^^ 2)).2.2] at this
+      exact inv_intertwine _ _ this
+
+/-- the rectangular matrix of `o` in mode `s`: its compression to the mode's output (and, by `den_typed`, input) domain -/
+noncomputable def typed (P : Nat → Matrix X X K) (o : Op K (X → K)) (s : Nat) : Matrix X X K := P (outD o s) * den S o (1 <<< s)
+
+/-- the identity (and every scaling) of domain `d` is the projector `P d`, not the global unit matrix -/
+theorem typed_scaling (P : Nat → Matrix X X K) (d : Nat) (c : K) (dt s : Nat) (hs : s < 4) :
+    typed isReal re blocks leaf P (Op.scaling d c dt) s = modeScalar c s • P d := by
+  rw [typed, den_scaling isReal re blocks leaf d c dt s hs]
+  simp [outD, dom, tgt, domTgt]
+
+/-- compression is multiplicative on composable well-typed operators (`in(a) = out(b)`), given idempotent projectors -/
+theorem typed_mul (P : Nat → Matrix X X K) (ty : Nat → Nat × Nat) (hT : Typing leaf P ty) (hidem : ∀ d, P d * P d = P d)
+    (a b : Op K (X → K)) (ha : WT ty a = true) (s : Nat) (hs : s < 4) (hfit : inD a s = outD b s) :
+    P (outD a s) * (den S a (1 <<< s) * den S b (1 <<< s)) =
+      typed isReal re blocks leaf P a s * typed isReal re blocks leaf P b s := by
+  have h := den_typed isReal re blocks leaf P ty hT a ha s hs
+  rw [typed, typed, ← hfit]
+  calc P (outD a s) * (den S a (1 <<< s) * den S b (1 <<< s))
+      = (P (outD a s) * den S a (1 <<< s)) * den S b (1 <<< s) := by rw [mul_assoc]
+    _ = den S a (1 <<< s) * (P (inD a s) * P (inD a s)) * den S b (1 <<< s) := by rw [h, hidem]
+    _ = (den S a (1 <<< s) * P (inD a s)) * (P (inD a s) * den S b (1 <<< s)) := by simp only [mul_assoc]
+    _ = P (outD a s) * den S a (1 <<< s) * (P (inD a s) * den S b (1 <<< s)) := by rw [← h]
+
+/-- ... and additive -/
+theorem typed_add (P : Nat → Matrix X X K) (d : Nat) (A B : Matrix X X K) : P d * (A + B) = P d * A + P d * B := mul_add _ _ _
+
+/-- **`tree_sound` read with per-domain identities**: the rectangular matrix of the built operator is the compression of the
+    script's matrix expression, and (for a well-typed result) it maps the mode's input domain into its output domain -/
+theorem tree_sound_typed (hre : ∀ c, isReal c = true → re c = c) (P : Nat → Matrix X X K) (ty : Nat → Nat × Nat)
+    (hT : Typing leaf P ty) (e : Expr K (X → K)) (o : Op K (X → K)) (hb : build S e = .ok o) (hok : treeOK S e = true)
+    (hwt : WT ty o = true) (s : Nat) (hs : s < 4) (hreq : ReqE e s = true) :
+    typed isReal re blocks leaf P o s = P (outD o s) * spec leaf e s ∧
+    typed isReal re blocks leaf P o s = spec leaf e s * P (inD o s) := by
+  have h := (tree_sound isReal re blocks leaf hre e o hb hok).2 s hs hreq
+  refine ⟨by rw [typed, h], ?_⟩
+  rw [typed, den_typed isReal re blocks leaf P ty hT o hwt s hs, h]
+
+/-- non-vacuity of `Typing`: two one-point domains inside `Fin 2`, a genuinely rectangular leaf from domain 0 to domain 1 -/
+example :
+    let P : Nat → Matrix (Fin 2) (Fin 2) ℚ := fun d =>
+      if d = 0 then Matrix.diagonal (fun i => if i = 0 then 1 else 0)
+      else if d = 1 then Matrix.diagonal (fun i => if i = 1 then 1 else 0) else 0
+    let E : Matrix (Fin 2) (Fin 2) ℚ := Matrix.of fun i j => if i = 1 ∧ j = 0 then 5 else 0
+    P 1 * E = E * P 0 ∧ P 0 * Eᵀ = Eᵀ * P 1 ∧ P 1 * E ≠ 0 ∧ P 0 * P 0 = P 0 ∧
+      (∀ d, ∃ p : Fin 2 → ℚ, P d = Matrix.diagonal p) := by
+  intro P E
+  refine ⟨?_, ?_, ?_, ?_, ?_⟩
+  · rw [← Matrix.ext_iff]
+    simp [P, E, Fin.forall_fin_two, Matrix.mul_apply, Fin.sum_univ_two, Matrix.diagonal]
+  · rw [← Matrix.ext_iff]
+    simp [P, E, Fin.forall_fin_two, Matrix.mul_apply, Fin.sum_univ_two, Matrix.diagonal, Matrix.transpose]
+  · intro h
+    have := congrFun (congrFun h 1) 0
+    simp [P, E, Matrix.mul_apply, Matrix.diagonal] at this
+  · simp [P]
+  · intro d
+    by_cases h0 : d = 0
+    · exact ⟨fun i => if i = 0 then 1 else 0, by simp [P, h0]⟩
+    · by_cases h1 : d = 1
+      · exact ⟨fun i => if i = 1 then 1 else 0, by simp [P, h1]⟩
+      · exact ⟨0, by simp [P, h0, h1]⟩
+
 end matrix
 
 end NiftyVerif.C01
